@@ -32,6 +32,24 @@ async def scenario(env, cfg):
         return f
 
     async def sender(sid, items, mode):
+        if mode in ("send_from-close", "send_from-async-close"):
+            # the sender itself closes the channel after its batch (close=True); there is no other closer in these configurations
+            batch = [(sid, i) for i in range(items)]
+
+            async def source():
+                for x in batch:
+                    await gate("s%d" % sid)
+                    yield x
+
+            await gate("s%d" % sid)
+            try:
+                await ch.send_from(batch if mode == "send_from-close" else source(), close=True)
+                log["sent"] += batch
+                log["sent_before_close"] += batch  # close() comes after the last item of the batch was enqueued
+                log["closed"] = True
+            except ChannelClosed:
+                log["rejected"] += batch
+            return
         if mode == "send_from":
             await gate("s%d" % sid)
             try:
@@ -108,7 +126,8 @@ async def scenario(env, cfg):
         tasks["s%d" % sid] = asyncio.ensure_future(sender(sid, items, mode))
     for rid, mode in enumerate(cfg["receivers"]):
         tasks["r%d" % rid] = asyncio.ensure_future(receiver(rid, mode))
-    tasks["c"] = asyncio.ensure_future(closer())
+    if cfg.get("closer", True):
+        tasks["c"] = asyncio.ensure_future(closer())
     await settle(3)
     cancel_target = cfg.get("cancel")
     cancelled = False
@@ -232,7 +251,13 @@ def units(tier):
     add("1 sender x1 | free receiver + receiver, fine-grained", senders=[(1, "send")], receivers=["receive-free", "receive"], steps=5, fine=True)
     add("no sender | 2 receivers, fine-grained", senders=[], receivers=["receive", "receive"], steps=4, fine=True)
     add("no sender | iterator + receiver, fine-grained", senders=[], receivers=["iter", "receive"], steps=4, fine=True)
+    # the batch sender closes the channel itself (send_from(..., close=True)); bounded buffers make it suspend inside the batch
+    add("send_from(list, close=True) x2 | free receiver", senders=[(2, "send_from-close")], receivers=["receive-free"], steps=3, closer=False)
+    add("send_from(list, close=True) x2 | receiver + free iterator", senders=[(2, "send_from-close")], receivers=["receive", "iter-free"], steps=4, closer=False)
+    add("send_from(async source, close=True) x2 | free iterator", senders=[(2, "send_from-async-close")], receivers=["iter-free"], steps=4, closer=False)
+    add("send_from(async source, close=True) x2 | 2 receivers", senders=[(2, "send_from-async-close")], receivers=["receive", "receive-free"], steps=5, closer=False)
     if tier == "thorough":
+        add("send_from(list, close=True) x3 | 2 free-running receivers", senders=[(3, "send_from-close")], receivers=["receive-free", "iter-free"], steps=5, closer=False)
         add("1 sender x3 | 2 free-running receivers", senders=[(3, "send")], receivers=["receive-free", "receive-free"], steps=8)
         add("1 sender x3 | 2 receivers", senders=[(3, "send")], receivers=["receive", "receive"], steps=8)
         add("2 senders x2 | 2 receivers", senders=[(2, "send"), (2, "send")], receivers=["receive", "receive"], steps=8)
